@@ -297,8 +297,10 @@ def run_case(case):
         cf.append({'crash': {'at': 'report'}})
         rng.shuffle(cf)
         for c in cf[:max(1, case['budget'] // 8)]:
-            c['crash']['how'] = rng.choice(['exit0', 'exit3', 'SIGKILL',
-                                            'SIGSEGV'])
+            hows = ['exit0', 'exit3', 'SIGKILL', 'SIGSEGV', 'kbint']
+            if c['crash']['at'].startswith('layer.'):
+                hows += ['sysexit', 'sysexit0']
+            c['crash']['how'] = rng.choice(hows)
             plan = dict(base_plan)
             plan.update(c)
             w, p, o = one(plan, 'j2')
